@@ -9,8 +9,9 @@ import (
 // it hands every instance a Rec (Prepare is called, ProcessProtocolMsg is the
 // recording wrapper), but it receives M4 through a channel whose length the
 // harness chooses per run (RoundID) — so that the channel can be full when
-// the reader dispatches a message — M3 through a handler (OnEnter/OnExit) and
-// MSync through the barrier handler.
+// the reader dispatches a message — M3 through a handler (OnEnter/OnExit),
+// MSync through the barrier handler, and M2 through a channel of slices
+// (aggregated type) of the same length.
 
 // ChanProtoName is the name the bounded-channel protocol is registered under.
 const ChanProtoName = "VerifC05ChanProto"
@@ -84,6 +85,11 @@ func newChanProto(n *onet.TreeNodeInstance) (onet.ProtocolInstance, error) {
 		return nil, err
 	}
 	if err := n.RegisterChannelLength(&r.Ch4, length); err != nil {
+		return nil, err
+	}
+	// M2 through a channel of slices (an aggregated type) of the same length: the send into it has no
+	// capacity test, the reader waits for room
+	if err := n.RegisterChannelLength(&r.Ch2, length); err != nil {
 		return nil, err
 	}
 	return p, nil
